@@ -70,6 +70,69 @@ def _enum_members(tree, cls):
     return out, c
 
 
+def _enum_values(tree, cls):
+    """{member name: constant value} for `A = B = <const>` members of an Enum class."""
+    c = next(n for n in tree.body if isinstance(n, ast.ClassDef) and n.name == cls)
+    out = {}
+    for n in c.body:
+        if isinstance(n, ast.Assign) and isinstance(n.value, ast.Constant):
+            for t in n.targets:
+                if isinstance(t, ast.Name):
+                    out[t.id] = n.value.value
+    return out
+
+
+def _io_decay(ftree, vt_names, vt_canon, vt_values):
+    """VALUE_TO_IO_DECAY as {canonical member: canonical member}."""
+    cls = next(n for n in ftree.body if isinstance(n, ast.ClassDef) and n.name == 'ValueTypes')
+    prop = next((n for n in cls.body if isinstance(n, ast.FunctionDef) and n.name == 'valid_for_io'), None)
+    if prop is None:
+        raise ExtractError('ValueTypes.valid_for_io not found')
+    sets = [n for n in ast.walk(prop) if isinstance(n, ast.Set)]
+    src = ast.unparse(prop)
+    if len(sets) != 1 or 'return self.value in' not in src:
+        raise ExtractError('valid_for_io: unrecognised body')
+    valid = set(ast.literal_eval(sets[0]))
+    decay = None
+    for n in ftree.body:
+        if isinstance(n, ast.AnnAssign) and isinstance(n.target, ast.Name) and n.target.id == 'VALUE_TO_IO_DECAY':
+            if ast.unparse(n.value).replace(' ', '') != '{typ:typiftyp.valid_for_ioelseValueTypes.STRINGfortypinValueTypes}':
+                raise ExtractError('VALUE_TO_IO_DECAY: unrecognised construction ' + ast.unparse(n.value))
+            decay = {m: (m if vt_values[m] in valid else 'STRING') for m in vt_names}
+        elif isinstance(n, ast.Assign) and len(n.targets) == 1 and isinstance(n.targets[0], ast.Subscript) \
+                and isinstance(n.targets[0].value, ast.Name) and n.targets[0].value.id == 'VALUE_TO_IO_DECAY':
+            if decay is None:
+                raise ExtractError('VALUE_TO_IO_DECAY assigned before definition')
+            k, v = n.targets[0].slice, n.value
+            ok = all(isinstance(x, ast.Attribute) and isinstance(x.value, ast.Name) and x.value.id == 'ValueTypes' for x in (k, v))
+            if not ok or k.attr not in vt_canon or v.attr not in vt_canon:
+                raise ExtractError('VALUE_TO_IO_DECAY: unrecognised override ' + ast.unparse(n))
+            decay[vt_canon[k.attr]] = vt_canon[v.attr]
+    if decay is None:
+        raise ExtractError('VALUE_TO_IO_DECAY not found')
+    return decay
+
+
+def _lookup_aliases(ftree, vt_canon):
+    """VALUE_TYPE_LOOKUP[...] = ValueTypes.X extra entries, after the comprehension over the members."""
+    base_ok = False
+    extra = []
+    for n in ftree.body:
+        if isinstance(n, ast.AnnAssign) and isinstance(n.target, ast.Name) and n.target.id == 'VALUE_TYPE_LOOKUP':
+            if ast.unparse(n.value).replace(' ', '') != '{typ.value:typfortypinValueTypes}':
+                raise ExtractError('VALUE_TYPE_LOOKUP: unrecognised construction ' + ast.unparse(n.value))
+            base_ok = True
+        elif isinstance(n, ast.Assign) and len(n.targets) == 1 and isinstance(n.targets[0], ast.Subscript) \
+                and isinstance(n.targets[0].value, ast.Name) and n.targets[0].value.id == 'VALUE_TYPE_LOOKUP':
+            k, v = n.targets[0].slice, n.value
+            if not (isinstance(k, ast.Constant) and isinstance(k.value, str) and isinstance(v, ast.Attribute) and v.attr in vt_canon):
+                raise ExtractError('VALUE_TYPE_LOOKUP: unrecognised extra entry ' + ast.unparse(n))
+            extra.append((k.value, vt_canon[v.attr]))
+    if not base_ok:
+        raise ExtractError('VALUE_TYPE_LOOKUP not found')
+    return extra
+
+
 def _list_of_attrs(tree, name, owner):
     for n in tree.body:
         if isinstance(n, ast.Assign) and any(isinstance(t, ast.Name) and t.id == name for t in n.targets):
@@ -196,9 +259,28 @@ def generate(repo):
         if req not in efd:
             raise ExtractError(f'EntFlags.{req} missing')
 
+    vt_values = _enum_values(ftree, 'ValueTypes')
+    for mem in vt_names:
+        if not isinstance(vt_values.get(mem), str):
+            raise ExtractError(f'ValueTypes.{mem}: value is not a string literal')
+    decay = _io_decay(ftree, vt_names, vt_canon, vt_values)
+    extra = _lookup_aliases(ftree, vt_canon)
+    # python dict semantics of VALUE_TYPE_LOOKUP: later entries override earlier ones with the same key
+    lookup = {}
+    for mem in vt_names:
+        lookup[vt_values[mem]] = vt_names.index(mem)
+    for k_, mem in extra:
+        lookup[k_] = vt_names.index(mem)
+    io_text = ['bool' if mem == 'BOOL' else vt_values[decay[mem]] for mem in vt_names]
+    for req in ('SPAWNFLAGS', 'CHOICES', 'BOOL', 'EHANDLE'):
+        if req not in vt_canon:
+            raise ExtractError(f'ValueTypes.{req} missing')
+    from extract import lean_str_chars
+
     L = []
     L.append('import Srctools.Model.C16')
     L.append('import Srctools.Model.C16Bin')
+    L.append('import Srctools.Model.C16KV')
     L.append('/-! GENERATED by tools/gen_fgdw.py from src/srctools/fgd.py, _engine_db.py, const.py — do not edit. -/')
     L.append('namespace Gen.Fgdw')
     L.append('')
@@ -241,6 +323,17 @@ def generate(repo):
     L.append('  spawnflags := (lastIdx valueTypeOrder "SPAWNFLAGS").getD 0')
     L.append('  nTypes := valueTypeOrder.length')
     L.append('  nFileTypes := fileTypeOrder.length')
+    L.append('')
+    L.append('/-- Text side of the value types: `.value` per canonical member, `VALUE_TYPE_LOOKUP`, what `IODef.export`')
+    L.append('writes (`bool` for BOOL, else the value of `VALUE_TO_IO_DECAY[type]`). -/')
+    L.append('def typeTab : C16.KV.TypeTab where')
+    L.append('  values := [' + ', '.join(lean_str_chars(vt_values[mem]) for mem in vt_names) + ']')
+    L.append('  lookup := [' + ', '.join(f'({lean_str_chars(k_)}, {v})' for k_, v in lookup.items()) + ']')
+    L.append('  ioText := [' + ', '.join(lean_str_chars(t) for t in io_text) + ']')
+    L.append(f'  spawnflags := {vt_names.index("SPAWNFLAGS")}')
+    L.append(f'  choices := {vt_names.index("CHOICES")}')
+    L.append(f'  bool := {vt_names.index("BOOL")}')
+    L.append(f'  ehandle := {vt_names.index(vt_canon["EHANDLE"])}')
     L.append('')
     L.append('end Gen.Fgdw')
     return '\n'.join(L) + '\n'
